@@ -169,11 +169,13 @@ theorem mem_removeAt {s : ASet} {d k : Nat} (h : IdxInv s) (hd : d < s.n) (hk : 
       grind
 
 
-/-- accumulator invariant of the minimum scans w.r.t. the entries already seen -/
+/-- accumulator invariant of the minimum scans w.r.t. the entries already seen:
+nothing chosen yet ⇔ no candidate seen (then the latency is still the start value `time.Hour`);
+otherwise the choice is a seen candidate and a true minimum over the seen candidates. -/
 def ScanP (excl : Option Nat) (seen : List Entry) (acc : Option Nat × Int) : Prop :=
-  acc.2 ≤ hour ∧
+  (acc.1 = none → ∀ e ∈ seen, excl = some e.d) ∧
   (acc.1 = none → acc.2 = hour) ∧
-  (∀ d, acc.1 = some d → (⟨d, acc.2⟩ : Entry) ∈ seen ∧ excl ≠ some d ∧ acc.2 < hour) ∧
+  (∀ d, acc.1 = some d → (⟨d, acc.2⟩ : Entry) ∈ seen ∧ excl ≠ some d) ∧
   (∀ e ∈ seen, excl ≠ some e.d → acc.2 ≤ e.sl)
 
 theorem scan_fold (excl : Option Nat) (es : List Entry) :
@@ -188,40 +190,65 @@ theorem scan_fold (excl : Option Nat) (es : List Entry) :
     apply ih
     obtain ⟨h1, h2, h3, h4⟩ := h
     unfold scanStep
-    split
-    · refine ⟨h1, h2, ?_, ?_⟩
+    by_cases hex : excl = some e.d
+    · rw [if_pos hex]
+      refine ⟨?_, h2, ?_, ?_⟩
+      · intro hn e' he'
+        simp at he'
+        rcases he' with he' | he'
+        · exact h1 hn e' he'
+        · subst he'; exact hex
       · intro d hd; have := h3 d hd; simp [this]
       · intro e' he' hc
         simp at he'
         rcases he' with he' | he'
         · exact h4 e' he' hc
         · subst he'; contradiction
-    · split
-      · rename_i hne hlt
-        refine ⟨by simp; omega, by simp, ?_, ?_⟩
-        · intro d hd
-          simp at hd
-          subst hd
-          simp
-          exact ⟨hne, by omega⟩
-        · intro e' he' hc
-          simp at he'
-          rcases he' with he' | he'
-          · have := h4 e' he' hc; simp; omega
-          · subst he'; simp
-      · rename_i hne hlt
-        refine ⟨h1, h2, ?_, ?_⟩
-        · intro d hd; have := h3 d hd; simp [this]
-        · intro e' he' hc
-          simp at he'
-          rcases he' with he' | he'
-          · exact h4 e' he' hc
-          · subst he'; omega
+    · rw [if_neg hex]
+      have take : ScanP excl (seen ++ [e]) (some e.d, e.sl) ↔ (∀ e' ∈ seen, excl ≠ some e'.d → e.sl ≤ e'.sl) := by
+        constructor
+        · intro hp e' he' hc; exact hp.2.2.2 e' (by simp [he']) hc
+        · intro hmin
+          refine ⟨by simp, by simp, ?_, ?_⟩
+          · intro d hd
+            simp at hd
+            subst hd
+            simp
+            exact hex
+          · intro e' he' hc'
+            simp at he'
+            rcases he' with he' | he'
+            · exact hmin e' he' hc'
+            · subst he'; simp
+      by_cases hn : acc.1 = none
+      · have hc : (acc.1.isNone || decide (e.sl < acc.2)) = true := by simp [hn]
+        rw [if_pos hc]
+        apply take.mpr
+        intro e' he' hc'
+        exact absurd (h1 hn e' he') hc'
+      · by_cases hlt : e.sl < acc.2
+        · have hc : (acc.1.isNone || decide (e.sl < acc.2)) = true := by simp [hlt]
+          rw [if_pos hc]
+          apply take.mpr
+          intro e' he' hc'
+          have := h4 e' he' hc'
+          omega
+        · have hc : ¬ (acc.1.isNone || decide (e.sl < acc.2)) = true := by
+            cases hq : acc.1 with
+            | none => exact absurd hq hn
+            | some x => simp [hlt]
+          rw [if_neg hc]
+          refine ⟨fun h => absurd h hn, fun h => absurd h hn, ?_, ?_⟩
+          · intro d hd; have := h3 d hd; simp [this]
+          · intro e' he' hc'
+            simp at he'
+            rcases he' with he' | he'
+            · exact h4 e' he' hc'
+            · subst he'; omega
 
 theorem scanMin_spec (es : List Entry) (excl : Option Nat) : ScanP excl es (scanMin es excl) := by
   have := scan_fold excl es [] (none, hour) ⟨by simp, by simp, by simp, by simp⟩
   simpa [scanMin] using this
-
 
 /-- the sorting latency the set should hold for an alive `d`: measurement + offset, `0` when unmeasured -/
 def expSl (s : ASet) (d : Nat) : Int :=
@@ -1164,7 +1191,7 @@ theorem getMin_some {s : ASet} (hs : SInv s) {excl : Option Nat} {d : Nat} {L : 
     obtain ⟨_, _, h3, _⟩ := scanMin_spec s.entries excl
     split at h
     · have := h3 d (by rw [h])
-      exact ⟨⟨_, this.1, rfl⟩, this.2.1⟩
+      exact ⟨⟨_, this.1, rfl⟩, this.2⟩
     · cases h
 
 theorem getMin_none_iff {s : ASet} (hs : SInv s) (excl : Option Nat) :
@@ -1194,7 +1221,7 @@ theorem getMin_none_iff {s : ASet} (hs : SInv s) (excl : Option Nat) :
       | none => simp [hq]
       | some x =>
         have := h3 x hq
-        exact absurd (hall _ this.1) this.2.1
+        exact absurd (hall _ this.1) this.2
 
 /-- the latency returned with the cached best is the best's own sorting latency, unless the best
 is the optimistic "first alive, never measured" choice (then it is `time.Hour`) -/
@@ -1241,7 +1268,7 @@ theorem getMin_excluded_is_min {s : ASet} {b d : Nat} {L : Int} (hD : s.minD = s
       have h2 : (scanMin s.entries (some b)).2 = L := by rw [h]
       have := h3 d h1
       rw [h2] at this
-      refine ⟨this.1, fun hdb => this.2.1 (by rw [hdb]), ?_⟩
+      refine ⟨this.1, fun hdb => this.2 (by rw [hdb]), ?_⟩
       intro e he hne
       have := h4 e he (by simp; exact fun h => hne h.symm)
       rw [h2] at this
@@ -2629,7 +2656,7 @@ theorem getMin_some' {s : ASet} (hb : ∀ d, s.minD = some d → ∃ e ∈ s.ent
     obtain ⟨_, _, h3, _⟩ := scanMin_spec s.entries excl
     split at h
     · have := h3 d (by rw [h])
-      exact ⟨⟨_, this.1, rfl⟩, this.2.1⟩
+      exact ⟨⟨_, this.1, rfl⟩, this.2⟩
     · cases h
 
 theorem select1_ok_alive {rnd : Nat → Nat → Nat} {g : Group} {t : NetType} {p : Policy} {fi : Int}
